@@ -116,6 +116,22 @@ class Builder:
             self.b_globals = getattr(self, 'b_globals', {})
             self.b_globals[g] = tr.global_by_name(g)
         self.tr = tr
+        # @enum <name>: the enumerators of a /repo enum as macros <name>_<enumerator> (values read from the AST, so the
+        # contract text never hard-codes them)
+        if u.enums and not getattr(u, '_enums_done', False):
+            lines = []
+            for en in u.enums:
+                short = en.split('::')[-1]
+                edecls = [n for n in self.db.byid.values() if n.get('kind') == 'EnumDecl' and n.get('name') == short
+                          and any(k.get('kind') == 'EnumConstantDecl' for k in n.get('inner', []))]
+                if not edecls:
+                    raise ExtractError('%s: enum %s not found' % (u.name, en))
+                for k in edecls[0]['inner']:
+                    if k.get('kind') == 'EnumConstantDecl':
+                        v = tr.enum_value({'id': k['id'], 'name': k['name']})
+                        lines.append('#define %s_%s (%s)' % (short, k['name'], v.split()[0]))
+            u.prelude = '\n'.join(lines) + '\n' + (u.prelude or '')
+            u._enums_done = True
         b = Built()
         for fs in u.functions:
             if 'extern' in fs.opts:
@@ -271,6 +287,10 @@ class Builder:
             args.append(name)
         for d in fs.decls:
             out.append('    ' + d)
+        for d in fs.inits:
+            out.append('    ' + subst(d, f=f).rstrip(';') + ';   /* entry snapshot (ghost) */')
+        for r in fs.axioms:
+            out.append('    __CPROVER_assume(%s);   /* axiom (assumed, listed in the evidence) */' % subst(r, f=f))
         for r in fs.requires:
             out.append('    __CPROVER_assume(%s);' % subst(r, f=f))
         for d in fs.lets:
@@ -337,7 +357,7 @@ class Builder:
         need, todo = [], list(roots)
         while todo:
             c = todo.pop()
-            if c in need or c in replaced:
+            if c in need or (c in replaced and c not in roots):
                 continue
             need.append(c)
             todo += [x for x in self.b.funcs[c].calls]
@@ -355,14 +375,28 @@ class Builder:
         for c in need:
             used_stubs |= (self.b.funcs[c].calls & set(replaced))
         # a stub may itself not call anything; stubs for replaced callees reachable from need
+        # a function that is both extracted and replaced calls ITSELF (recursion): inside its body the recursive calls
+        # go to its own contract (stub <name>__rec) -- the usual modular rule for recursion; termination is not proved
+        selfrec = [c for c in need if c in replaced]
         for cn in self.order(used_stubs):
-            txt.append(self.stub(cn, caller))
+            st = self.stub(cn, caller)
+            if cn in selfrec:
+                st = re.sub(r'\b%s\(' % re.escape(cn), cn + '__rec(', st, count=1)
+            txt.append(st)
         for cn in self.order(need):
             if self.b.funcs[cn].text is None:
                 raise ExtractError('%s: %s belongs to another translation unit and has no contract to stand in for it' % (self.u.name, cn))
             txt.append('/* ---- extracted from %s:%s  %s ---- */' % (
                 (self.b.funcs[cn].file or '').replace(REPO + '/', ''), self.b.funcs[cn].line, self.b.funcs[cn].qual))
-            txt.append('static ' + self.b.funcs[cn].text)
+            body = self.b.funcs[cn].text
+            for c in selfrec:
+                if c in self.b.funcs[cn].calls:
+                    if c == cn:
+                        head, nl, rest = body.partition('\n')      # the first line is the signature of cn itself
+                        body = head + nl + re.sub(r'\b%s\(' % re.escape(c), c + '__rec(', rest)
+                    else:
+                        body = re.sub(r'\b%s\(' % re.escape(c), c + '__rec(', body)
+            txt.append('static ' + body)
         txt.append(extra)
         txt.append(harness_text)
         p = os.path.join(self.wd, '%s__%s.c' % (self.u.name, name))
@@ -510,7 +544,8 @@ class Builder:
                     replaced = [c for c in contracted if c != cn and c not in fs.inline]
                 h = self.enforce(cn, mode)
                 self.extra_defs = ['#define VERIF_ENFORCING_%s 1' % cn] + (['#define VERIF_TABLES_UF 1'] if 'uf_tables' in fs.opts else [])
-                p = self.unit_file('%s_%s' % (cn, mode), mode, [cn], replaced, h, cn)
+                # functions named in `inline:` keep their real bodies, also when only the contract text calls them
+                p = self.unit_file('%s_%s' % (cn, mode), mode, [cn] + [c for c in fs.inline if c in b.funcs and c != cn], replaced, h, cn)
                 self.extra_defs = []
                 fl = list(u.flags) + (fs.opts.get('flags', '').replace(',', ' ').split() if fs.opts.get('flags') else [])
                 j = Job(u.name, '%s[%s]' % (cn, mode), 'enforce', mode, p, fl,
